@@ -72,10 +72,10 @@ Proof.
     + inversion H; reflexivity.
 Qed.
 
-Lemma num_loop_split : forall l first prev more rng k w rest,
-  num_loop ud l first prev more rng = (k, w, rest) -> l = w ++ rest.
+Lemma num_loop_split : forall l first fd prev more rng k w rest,
+  num_loop ud l first fd prev more rng = (k, w, rest) -> l = w ++ rest.
 Proof.
-  fix IH 1. intros l first prev more rng k w rest H.
+  fix IH 1. intros l first fd prev more rng k w rest H.
   destruct l as [|c r]; cbn in H.
   - inversion H; reflexivity.
   - destruct ((first =? ch_0) && ((c =? ch_x) || (c =? ch_X))).
@@ -83,16 +83,16 @@ Proof.
     destruct (negb (is_digit ud c) && negb (c =? ch_dot)).
     + destruct (((c =? ch_e) || (c =? ch_E)) && negb (prev =? ch_minus) && negb (prev =? ch_plus) && negb (prev =? ch_dot)).
       { eapply scan_exp_split; eauto. }
-      destruct ((c =? ch_minus) && is_digit ud first && negb rng).
+      destruct ((c =? ch_minus) && fd && negb rng).
       * destruct r as [|d r2]; [inversion H; reflexivity|].
         destruct (is_digit ud d).
-        -- destruct (num_loop ud r2 first prev more true) as [[k' w'] rest'] eqn:E.
+        -- destruct (num_loop ud r2 first fd prev more true) as [[k' w'] rest'] eqn:E.
            inversion H; subst. cbn. do 2 f_equal. eapply IH; eauto.
         -- inversion H; reflexivity.
       * inversion H; reflexivity.
     + destruct ((c =? ch_dot) && ((prev =? ch_minus) || (prev =? ch_plus))).
       * inversion H; reflexivity.
-      * destruct (num_loop ud r first c true rng) as [[k' w'] rest'] eqn:E.
+      * destruct (num_loop ud r first fd c true rng) as [[k' w'] rest'] eqn:E.
         inversion H; subst. cbn. f_equal. eapply IH; eauto.
 Qed.
 
@@ -105,15 +105,20 @@ Proof.
     destruct (str_loop r) as [[b' w'] rest'] eqn:E. inversion H; subst. cbn. f_equal. eapply IH; eauto.
 Qed.
 
+End Lex.
+
+Section Lex2.
+Variable ud : N -> bool.
+
 (* every scan consumes a prefix of what follows its first character *)
 Lemma scan_after_split : forall c r k w rest, scan_after ud c r = (k, w, rest) -> r = w ++ rest.
 Proof.
-  intros c r k w rest H. unfold scan_after in H.
+  intros c r k w rest H. unfold scan_after, scan_after' in H.
   destruct (c =? 0); [inversion H; reflexivity|].
   destruct (is_space c).
   { destruct (span_space r) as [w' rest'] eqn:E. inversion H; subst. eapply span_space_split; eauto. }
   destruct (is_letter c).
-  { destruct (span_alnum ud r) as [w' rest'] eqn:E. inversion H; subst. eapply span_alnum_split; eauto. }
+  { destruct (span_alnum (peek_digits ud) r) as [w' rest'] eqn:E. inversion H; subst. eapply span_alnum_split; eauto. }
   destruct (is_digit ud c || (c =? ch_minus) || (c =? ch_plus)).
   { eapply num_loop_split; eauto. }
   destruct (c =? ch_quote).
@@ -142,4 +147,4 @@ Qed.
 Theorem lex_total : forall text, exists ts, lex ud text = Some ts.
 Proof. intros text. unfold lex. apply lex_fuel_enough. lia. Qed.
 
-End Lex.
+End Lex2.
